@@ -1,6 +1,7 @@
 /- Driver handlers: C10 iterator traces, builder sequences, `expect`. -/
 import ChessVerif.Drv.Pos
 import ChessVerif.Spec.Iter
+import ChessVerif.Spec.Build
 
 namespace Chess.Drv
 open Chess Chess.Spec
@@ -92,7 +93,10 @@ def parseBuildOp (t : String) : Option Fen.BuildOp :=
   | ["r", s] => (sqIdx? s).map .remove
   | _ => none
 
-/-- `build <op>...`: outputs one `+`/`!` per op (accepted / `PieceAlreadyExists`), then the result of `build()` -/
+/-- `build <op>...`: outputs one `+`/`!` per op (accepted / `PieceAlreadyExists`), then the result of `build()`.
+Specification side (`Spec/Build.lean`): the same marks from the mailbox builder and, when the assembled position is
+valid by the rules, that position built from scratch (placement, hash and check/pin sets recomputed by `decodePos`,
+which shares nothing with the modelled builder); for an invalid assembly only "it is refused" is specified. -/
 def handleBuild (toks : List String) : Ans :=
   match toks.mapM parseBuildOp with
   | none => bad
@@ -100,10 +104,19 @@ def handleBuild (toks : List String) : Ans :=
     let (b, marks) := ops.foldl (fun (st : Board × List Char) op =>
       let (b', ok) := Fen.buildStep st.1 op
       (b', (if ok then '+' else '!') :: st.2)) (Board.builderInit, [])
-    let res := match (if (b.raw.hasKings) then Fen.build b else Fen.build b) with
+    let res := match Fen.build b with
       | .ok b' => "ok " ++ encodeBoard b' ++ " " ++ showDerived b'
       | .error e => "err " ++ showValErr e
-    (String.ofList marks.reverse ++ " " ++ res, "-")
+    let modelOut := String.ofList marks.reverse ++ " " ++ res
+    let (s, smarks) := ops.foldl (fun (st : Spec.BuildSt × List Char) op =>
+      let (s', ok) := Spec.buildStep st.1 op
+      (s', (if ok then '+' else '!') :: st.2)) (Spec.BuildSt.init, [])
+    let specOut := match decodePos (encodeFields s.at_ s.turn s.castle s.ep s.half s.full) with
+      | some bs =>
+        if (abs bs).valid then String.ofList smarks.reverse ++ " ok " ++ encodeBoard bs ++ " " ++ showDerived bs
+        else if res.startsWith "err" then "-" else String.ofList smarks.reverse ++ " err (the assembled position is not valid)"
+      | none => "-"
+    (modelOut, specOut)
 
 def handleExpect : List String → Ans
   | t :: _ => (t, t)
